@@ -31,6 +31,14 @@ CLAIMED = {
             "c13_*: request shape (code, query, S256 of the verifier draw), three distinct fresh draws per attempt and NoDup over every history, cookie seals exactly the attempt's values, redirect_uri / post-logout URI = callback of a configured ingress whose host is the Host or X-Forwarded-Host header and whose path is the longest configured prefix (for every order of Go's map iteration; no match => nothing sent), acr / locale / prompt allow-lists, PAR shows the browser only client_id + request_uri, credentials never in the front channel. 3 600 login / logout requests over ingress sets x acr defaults x PAR x client auth through the real router agree with the model; the monitor checks S256, cookie binding, uniqueness and length of all random values, verified client assertions (iss, sub, aud, 30 s, unique jti) and scans everything browser-visible for credentials.",
             "Partial on 'unpredictable': that crypto/rand yields 256 bits of entropy is assumed; the theorem shows the values are fresh draws used nowhere else and the run measures length and uniqueness. Trusts as C02.",
             "5/C13"),
+    "C14": ("Coq theorems (attribute rules for every Set-Cookie of every handler site; set/clear scope table; RFC 6265 jar) + differential on the real router and net/http/cookiejar",
+            "c14_*: for every configuration, request and handler site every cookie is HttpOnly, Secure iff configured, SameSite=None only when configured (login cookie always Lax); validate with secure=false implies every ingress is http + localhost; scope rules for standalone / SSO; clear has the same (name, domain, path) as set (unconditionally for SSO and the logout cookie, otherwise under 'same matched path at both requests'); in the jar model set-then-clear leaves nothing, hence no session cookie after logout, no login cookie after callback, no logout cookie after the logout callback. c14_nested_prefix_refuted: without the same-path hypothesis the property fails (known findings). 127 k cases: URL / ingress parsing, Validate, MatchingPath, 508 browser histories over 35 configurations through the real router with every Set-Cookie compared and replayed into net/http/cookiejar and the jar model.",
+            "Trusts: Coq kernel; net/url in an ASCII fragment (anything else is 'unmodelled', never 'ok'); RFC 6265 jar validated against net/http/cookiejar only. Known findings: clear-path differs from set-path when ingress paths are nested or when another host's prefix is used.",
+            "5/C14"),
+    "C17": ("Coq theorems (retry counter machine, terminal page after three 307s for every failure sequence, cookie scope returns the counter, rate-limit window) + browser-following differential under the fake clock",
+            "c17_*: respondError is exactly a counter machine on the retry cookie; any maximal run of auto-retry 307s is <= 3 (pinned to the compiled constant) and persistent failures end in the error page; 429 is never retried; the retry cookie's Path covers the retry target for every failed request (c17_retry_cookie_returns_fixed; c17_retry_scope_refuted documents the pre-fix prefix defect, fixed in /repo); counter cleared by successful callback / logout callback / front-channel logout; rate limit: k-th login within the window refused iff k >= logins, counter lapses not before the window and < 1 s after it (c17_subsecond_window_refuted documents the pre-fix Max-Age truncation, fixed in /repo), never limited without a session or when disabled. 3 253 cases: counter values through the real router, browser-followed chains over 8 ingress set-ups, rate-limit scripts at window -1 ns / window / +1 ns on the fake clock.",
+            "Trusts: Coq kernel; jar model as C14. The composition of the counter machine with the jar-level browser is covered by correspondence and examples, not by a single end-to-end theorem. Hand-edited negative counters are outside 'a browser that keeps cookies'.",
+            "5/C17"),
     "C16": ("Coq theorems (rs/cors origin test on all byte strings; router CORS placement; SSO-proxy threads of the machine are read-only) + differential on the real router / rs/cors + shared-store histories",
             "c16_*: for every domain without '*' and ':' and every browser-producible origin, acceptance implies https, no port, host = domain or sub-domain (exact iff characterisation, completeness, refutations showing each hypothesis is needed); credentials only with an allowed origin, preflight only for registered methods, CORS only on the SSO endpoints; every KSsoProxy thread of the machine stays in read/done phases and leaves the world unchanged in every run; the server's Wildcard never proxies. 240 k origin / method / path cases through the real router with real rs/cors agree with the model; proxy + server histories over one wrapped Redis show only GETs from the proxy.",
             "Trusts: Coq kernel; ASCII lower-casing (non-ASCII case folding of Go excluded), rs/cors modelled for the options wonderwall uses. Domains containing '*' or ':' are outside the property's quantifier (they are accepted by config validation: observation recorded in DESIGN.md).",
